@@ -66,7 +66,7 @@ Proof.
   destruct x as [w u]. unfold ncoherent. cbn [nw]. intros C.
   assert (forall o1, coherent (nw (snd (let (r, w2) := step w o1 in (NObs r, mkNW w2 u))))) as ST.
   { intros o1. pose proof (step_coherent w o1 C) as S. destruct (step w o1). exact S. }
-  destruct o as [[c k v trg dl|c k tags|c t|c|c k|c|d|s h p]|s|s|c k]; cbn [nstep nw nw_up]; try exact C; try apply ST.
+  destruct o as [[c k v trg dl|c k tags|c t|c|c k|c|d|s h p]|s|s]; cbn [nstep nw nw_up]; try exact C; try apply ST.
   - destruct (on_l1 w c (c_remove k)) as [w1|] eqn:E; [|exact C].
     destruct (is_up u (server_of (nsrv w1) k)); [apply ST|].
     destruct C as [logs I]. exists logs. apply (on_l1_inv w logs c _ w1 I E (c_remove_sub k)).
@@ -82,21 +82,6 @@ Proof.
     destruct (stats_sum (first_down u (nsrv w)) w) as [[a b] w2] eqn:E. cbn [snd nw].
     destruct C as [logs I]. destruct (stats_sum_inv _ _ _ _ _ _ I E) as (l2 & I2 & _). exists l2. exact I2.
   - destruct (nth_error (w_srv w) s); [|exact C]. destruct (is_up u s); [apply ST|exact C].
-  - unfold lossy_fetch. destruct (nth_error (w_cli w) c) as [[l1|]|] eqn:Ec; try exact C.
-    destruct (c_fetch (w_now w) k l1); [|exact C]. cbn [snd nw].
-    destruct C as [logs I]. exists logs. apply set_l1_inv; [exact I|].
-    eapply l1_ok_sub; [apply (proj2 (proj1 I) c l1 Ec)|apply c_remove_sub].
-Qed.
-
-(* a fetch whose connection failed in the middle of the answer is a miss, changes no server, and leaves the world coherent
-   (it is in nreachable: every later fetch is current again) *)
-Lemma ngarbled_miss x c k a x1 :
-  nstep x (NGarbled c k) = (a, x1) ->
-  (a = NObs (ObsFetch None) \/ a = NObs ObsBad) /\ w_srv (nw x1) = w_srv (nw x) /\ nw_up x1 = nw_up x.
-Proof.
-  destruct x as [w u]. cbn [nstep nw nw_up]. unfold lossy_fetch.
-  destruct (nth_error (w_cli w) c) as [[l1|]|]; [destruct (c_fetch (w_now w) k l1)| |]; intros H; inversion H; subst;
-    cbn [nw nw_up]; repeat split; auto.
 Qed.
 
 Inductive nreachable : nworld -> Prop :=
